@@ -32,7 +32,8 @@ PROPERTY = "C20"
 LEVEL = "exploration"
 RULE = (
     "every HMM shape (K, M) in 1..4 x 1..4 and every linear-Gaussian shape (d_state, d_obs) in 1..3 x 1..3 "
-    "(6 of 9 with d_obs != d_state) is paired with every T in 1..6; per shape several parameter draws from "
+    "(6 of 9 with d_obs != d_state) is paired with every T in 1..6 (quick: the checkerboard half of these shapes "
+    "selected by VERIF_SEED parity, thorough: all); per shape several parameter draws from "
     "VERIF_SEED over the flavours dense / sparse (exact zeros) / one-hot dynamics / left-to-right / skewed / "
     "sparse with arbitrary (possibly impossible) observations, resp. generic / structured (zeros in A, C) / "
     "correlated / far observations.  distinct_nontrivial = distinct instances (shape, flavour, parameter draw) "
@@ -47,19 +48,19 @@ ASSUMPTIONS = [
 ]
 FLOORS = {
     "quick": {
-        "hmm_instances": 250, "ff_rows_checked": 700, "seq_logprob_cells": 50000, "ffbs_scripts": 50000,
-        "bs_scripts": 18000, "hmm_assess_cells": 50000, "hmm_T1": 40, "hmm_sparse": 80, "hmm_impossible_obs": 5,
-        "real_draw_tests": 8, "lg_instances": 180, "kf_checks": 180, "ks_checks": 180, "lg_assess_points": 700,
-        "lg_T1": 30, "lg_nonsquare": 110,
+        "hmm_instances": 250, "ff_rows_checked": 700, "seq_logprob_cells": 50000, "ffbs_scripts": 18000,
+        "bs_scripts": 15000, "hmm_assess_cells": 50000, "hmm_T1": 40, "hmm_sparse": 80, "hmm_impossible_obs": 5,
+        "real_draw_tests": 6, "lg_instances": 180, "kf_checks": 180, "ks_checks": 180, "lg_assess_points": 700,
+        "lg_T1": 25, "lg_nonsquare": 110,
     },
     "thorough": {
-        "hmm_instances": 1800, "ff_rows_checked": 5000, "seq_logprob_cells": 400000, "ffbs_scripts": 400000,
+        "hmm_instances": 1800, "ff_rows_checked": 5000, "seq_logprob_cells": 400000, "ffbs_scripts": 250000,
         "bs_scripts": 130000, "hmm_assess_cells": 400000, "hmm_T1": 300, "hmm_sparse": 600, "hmm_impossible_obs": 40,
-        "real_draw_tests": 30, "lg_instances": 1700, "kf_checks": 1700, "ks_checks": 1700, "lg_assess_points": 6500,
+        "real_draw_tests": 28, "lg_instances": 1700, "kf_checks": 1700, "ks_checks": 1700, "lg_assess_points": 6500,
         "lg_T1": 280, "lg_nonsquare": 1100,
     },
 }
-TIMEOUT_S = {"quick": 900, "thorough": 3600}
+TIMEOUT_S = {"quick": 1800, "thorough": 5400}
 
 # statistical monitor: at most N_STAT tests per run, each at level ALPHA_EACH  ->  family-wise <= 1e-9
 N_STAT = {"quick": 12, "thorough": 48}
@@ -70,8 +71,15 @@ MIN_EXPECTED = 50.0
 EAGER_HMM = {(1, 1), (2, 3), (3, 2), (4, 4), (1, 4), (4, 1)}
 EAGER_LG = {(1, 1), (1, 3), (3, 1), (2, 3), (3, 2)}
 STEP_BATCH = 256  # lanes of the vmapped one-step assess (sequences are padded / chunked to this)
-HMM_REPS = {"quick": (3, 3), "thorough": (21, 7)}  # (parameter draws per shape, draws per case)
-LG_REPS = {"quick": (4, 4), "thorough": (36, 9)}
+HMM_REPS = {"quick": (6, 3), "thorough": (21, 7)}  # (parameter draws per shape, draws per case)
+LG_REPS = {"quick": (8, 4), "thorough": (36, 9)}
+
+
+def _in_tier(tier, seed, *dims):
+    """thorough: every shape.  quick: the half of the shapes with even (sum of dims + seed) - a checkerboard in
+    which every pair of dimension values still meets, and two consecutive seeds cover all shapes (compile time
+    is per shape and dominates the cost)."""
+    return tier == "thorough" or (sum(dims) + int(seed)) % 2 == 0
 
 
 def plan(tier, seed):
@@ -80,19 +88,21 @@ def plan(tier, seed):
     reps, chunk = HMM_REPS[tier]
     shapes = [(K, M, T) for K in range(1, 5) for M in range(1, 5) for T in range(1, 7)]
     rng = np.random.default_rng([seed, 20, 0])
-    eligible = [i for i, (K, M, T) in enumerate(shapes) if K >= 2 and T >= 2]
+    eligible = [i for i, (K, M, T) in enumerate(shapes) if K >= 2 and T >= 2 and _in_tier(tier, seed, K, M, T)]
     stat_shapes = set(int(i) for i in rng.choice(eligible, size=N_STAT[tier], replace=False))
     for si, (K, M, T) in enumerate(shapes):
+        if not _in_tier(tier, seed, K, M, T):
+            continue
         rl = []
         for r in range(reps):
             d = {
                 "K": K, "M": M, "T": T,
-                "flavor": R.HMM_FLAVORS[(si + r) % len(R.HMM_FLAVORS)],
+                "flavor": R.HMM_FLAVORS[(K + M + T + r + int(seed)) % len(R.HMM_FLAVORS)],
                 "rng": [int(seed), 20, 1, si, r],
                 # un-jitted path on a few shapes: both sides of every `if T > 1`
                 "eager": r == 0 and T <= 2 and (K, M) in EAGER_HMM,
                 # 4096-script instances: every draw in thorough, the first draw per shape in quick
-                "scripted": tier == "thorough" or K**T <= 1024 or r == 0,
+                "scripted": tier == "thorough" or K**T <= 1024 or r < 2,
             }
             if r == 0 and si in stat_shapes:
                 d["flavor"] = "dense" if (si % 2) else "sparse"
@@ -104,10 +114,12 @@ def plan(tier, seed):
     reps, chunk = LG_REPS[tier]
     shapes = [(ds, do, T) for ds in range(1, 4) for do in range(1, 4) for T in range(1, 7)]
     for si, (ds, do, T) in enumerate(shapes):
+        if not _in_tier(tier, seed, ds, do, T):
+            continue
         rl = [
             {
                 "ds": ds, "do": do, "T": T,
-                "flavor": R.LG_FLAVORS[(si + r) % len(R.LG_FLAVORS)],
+                "flavor": R.LG_FLAVORS[(ds + do + T + r + int(seed)) % len(R.LG_FLAVORS)],
                 "rng": [int(seed), 20, 2, si, r],
                 "eager": r == 0 and T <= 2 and (ds, do) in EAGER_LG,
                 "n_points": 4,
